@@ -298,14 +298,18 @@ class AstToSqlVisitor(visitor.NodeVisitor):
         Transform a node into a pattern usable in `LIKE` clauses.
         :meta private:
         """
-        if isinstance(arg, (ast.Identifier, ast.Call)):
+        if isinstance(arg, ast.List):
+            raise exceptions.TypeException("LIKE", "List")
+
+        if not isinstance(getattr(arg, "val", None), str):
+            # Not a literal: fields, calls, `null`, ...
             res = self.visit(arg)
             if prefix:
                 res = f"'{prefix}' || " + res
             if suffix:
                 res = res + f" || '{suffix}'"
         else:
-            val = str(arg.val)  # type: ignore
+            val = arg.val  # type: ignore
             # Escape the LIKE wildcards and the escape character itself:
             escaped = val.replace("\\", "\\\\").replace("%", "\\%").replace("_", "\\_")
             needs_escape = escaped != val
